@@ -113,17 +113,18 @@ def lattice(tier):
 
 
 def pl_variants(tier, N):
-    """(P, L) pairs per lattice point: all P in 1..8 for small N (blocks longer than the interval), a subset for long runs."""
+    """(P, L) pairs per lattice point: all P up to 8 for short runs (blocks longer than the interval), a subset for long runs."""
+    if tier == 'quick':
+        if N <= 4:
+            return [(1, 1), (2, 1), (3, 1), (5, 1), (8, 1), (2, 2), (3, 2)]
+        if N <= 12:
+            return [(1, 1), (3, 1)] + ([(4, 1), (2, 2)] if N in (7, 12) else [])
+        return [(1, 1), (3, 1)]
     if N <= 12:
-        Ps = [1, 2, 3, 4, 5, 8] if tier == 'quick' else [1, 2, 3, 4, 5, 6, 7, 8]
-    elif N <= 101:
-        Ps = [1, 3] if tier == 'quick' else [1, 3, 8]
-    else:
-        Ps = [1, 7]
-    out = [(P, 1) for P in Ps]
-    if N <= 12:
-        out += [(2, 2), (3, 2)] if tier == 'quick' else [(1, 2), (2, 2), (3, 2), (4, 2)]
-    return out
+        return [(P, 1) for P in range(1, 9)] + [(1, 2), (2, 2), (3, 2), (4, 2)]
+    if N <= 101:
+        return [(1, 1), (3, 1), (8, 1)]
+    return [(1, 1), (7, 1)]
 
 
 def fixed_cfg(t0, dt, Tend, P, L):
@@ -168,11 +169,13 @@ def run(rep, tier):
     nviol = 0
     outcomes = {}
     best = {}
+    kcount = {}
     for args, viols, nst, nmacro, oc in common.pimap_unordered(_run_fixed, cases, chunksize=8):
         ntrans += nmacro
         outcomes[str(oc)] = outcomes.get(str(oc), 0) + 1
         for sig, det in viols:
             key = common.canon(sig)
+            kcount[sig.get('direction', sig['kind'])] = kcount.get(sig.get('direction', sig['kind']), 0) + 1
             cand = (args[4], args[5], det, args)
             if key not in best or cand[:2] < best[key][:2]:
                 best[key] = cand + (sig,)
@@ -181,6 +184,7 @@ def run(rep, tier):
     rep.coverage['fixed_step_runs'] = len(cases)
     rep.coverage['fixed_step_lattice'] = {'t0': T0S, 'dt': DTS, 'remainders': REMS, 'points': len(lattice(tier))}
     rep.coverage['fixed_step_outcomes'] = outcomes
+    rep.coverage['fixed_step_cases_outside_admissible_count'] = kcount
     rep.coverage['samples'] = [{'t0': c[0], 'dt': c[1], 'Tend': c[2], 'N': c[3], 'P': c[4], 'L': c[5]} for c in cases[:3]]
     # ---- part B: histories with restarts and step-size changes
     from vf.props import c09
